@@ -91,5 +91,41 @@ fn k_c07_avx2_max_empty() {
     assert!(Avx2::max_f32(&scf).is_none() && Avx2::argmax_f32(&scf).is_none());
 }
 
-// NOTE: harnesses on the f32 kernels (max_f32_avx2 / argmax_f32_avx2) with 32 symbolic f32 cells gave no answer within 10 and
-// 25 minutes (CBMC float reasoning); they are not part of the machinery. The f32 kernels are covered by the native sweep only.
+// NOTE: harnesses on the f32 kernels (max_f32_avx2 / argmax_f32_avx2) with 32 ARBITRARY symbolic f32 cells gave no answer within 10 and
+// 25 minutes (CBMC float reasoning); the harness below restricts every cell to four values instead (bounded, stated).
+
+fn small_f32() -> f32 { let k: u8 = kani::any(); kani::assume(k < 4); [f32::NEG_INFINITY, -3.5, -0.25, 2.0][k as usize] }
+
+/// C07 (bounded, restricted domain): the real AVX2 f32 maximum / arg-maximum on 2 rows x 32 columns whose cells range over
+/// {-inf, -3.5, -0.25, 2.0} (all 4^64 matrices): the reported maximum dominates every cell and is held by one; the arg-maximum
+/// designates a dominating cell. (Arbitrary f32 cells gave no answer within 25 minutes.)
+#[kani::proof]
+#[kani::unwind(34)]
+#[kani::stub(std::arch::x86_64::_mm256_cmp_ps, m256_cmp_ps)]
+#[kani::stub(std::arch::x86_64::_mm256_blendv_ps, m256_blendv_ps)]
+#[kani::stub(std::arch::x86_64::_mm256_max_ps, m256_max_ps)]
+#[kani::stub(std::arch::x86_64::_mm256_load_ps, m256_load_ps)]
+#[kani::stub(std::arch::x86_64::_mm256_blendv_epi8, m256_blendv_epi8)]
+#[kani::stub(std::arch::x86_64::_mm256_load_si256, m256_load_si256)]
+fn k_c07_avx2_max_argmax_f32_rows2_small() {
+    const R: usize = 2;
+    let mut sc = StripedScores::<f32, U32>::empty();
+    *sc.matrix_mut() = unsafe { DenseMatrix::<f32, U32>::uninitialized(R) };
+    let mut r = 0;
+    while r < R { let mut c = 0; while c < 32 { sc.matrix_mut()[r][c] = small_f32(); c += 1; } r += 1; }
+    let (r, c): (usize, usize) = (kani::any(), kani::any());
+    kani::assume(r < R && c < 32);
+    match Avx2::max_f32(&sc) {
+        None => panic!("None on a non-empty matrix"),
+        Some(m) => {
+            assert!(m >= sc.matrix()[r][c]);
+            let mut held = false; let mut i = 0;
+            while i < R { let mut j = 0; while j < 32 { if sc.matrix()[i][j] == m { held = true; } j += 1; } i += 1; }
+            assert!(held);
+        }
+    }
+    match Avx2::argmax_f32(&sc) {
+        None => panic!("None on a non-empty matrix"),
+        Some(mc) => { assert!(mc.row < R && mc.col < 32); assert!(sc.matrix()[mc.row][mc.col] >= sc.matrix()[r][c]); }
+    }
+}
